@@ -29,7 +29,7 @@ COMPONENTS = {
     "stub": ["nothing inside a session"],
 }
 ASSUMPTIONS = ["'equal public state' = worker type and its attrs fields (minus loop/pool/internal dicts), submitter cache_root/readonly_caches/max_concurrent/propagate_rerun/clean_stale_locks/audit flags, names of the four job hooks"]
-PROBES = ["hooks_installed", "by_value_function", "workflow_job", "slurm_config", "sge_config", "cf_config", "readonly_caches", "audit_on"]
+PROBES = ["numpy_audited", "hooks_installed", "by_value_function", "workflow_job", "slurm_config", "sge_config", "cf_config", "readonly_caches", "audit_on"]
 N = {"quick": 16, "thorough": 300}
 JOBS = 2
 CASE_WALL = 300
@@ -103,6 +103,15 @@ def run_case(case, ch, workdir):
             sub["max_concurrent"] = ch.randint(1, 4, "mc")
         if ch.chance(1, 4, "prop"):
             sub["propagate_rerun"] = False
+        if i == 0:
+            # every case carries one job whose input is a numpy array and whose submitter has
+            # auditing switched on (array-valued inputs meet every code path that looks at
+            # input values: hashing, auditing, pickling)
+            tk = "describe"
+            tspec = {"kind": "describe", "value": {"t": "nd", "dtype": ch.pick(["int64", "float32", "uint8"], "dtype"), "shape": [2, 2], "data": [ch.choose(5, "nd") for _ in range(4)]}}
+            nontriv = True
+            sub["audit"] = True
+            probe("numpy_audited")
         hooks = tk != "wf" and ch.chance(1, 2, "hooks")
         if hooks:
             probe("hooks_installed")
